@@ -92,4 +92,34 @@ CLAIMS["C14"] = {
     "note": "The NCBI string in Amino.tla is trusted (degeneracy counts and stops asserted); AminoName texts only checked non-empty; frames with non-ACGT bases not judged.",
     "technique": T,
 }
+CLAIMS["C08"] = {
+    "text": "TLC checks on every pair <= 3 (thorough <= 4) over 2 letters x a parametric integer matrix family (match, mismatch incl. asymmetric, gap, gap-open, Levenshtein) that the transcription of global.go/local.go (fill, decideOnStep, traceback, offset conversion) returns valid steps whose documented score equals the returned score, and that NoPositive implies no steps and score 0. About 19 000 (thorough ~113 000) recorded calls of the real Global/Local are validated event by event by Trace_Align: exhaustive small pairs x seeded symmetric/asymmetric matrices with open 0 and != 0, random pairs <= 60/200 over 4 and 23 letters, all shipped matrices, Levenshtein and empty inputs. Judged: validity, re-computed score, inputs unchanged, no panic.",
+    "ref": "DESIGN.md section 6 C08",
+    "note": "Trusted: TLC, the projection of float64 scores to ints (integer matrices). Local only inside its domain (no positive gap scores or gap-open). Steps themselves are never compared.",
+    "technique": T,
+}
+CLAIMS["C09"] = {
+    "text": "Gotoh's three-state optimum in Align.tla is model-checked against brute-force enumeration of all alignments, global and over all substring pairs, up to length 3/4. With open = 0 the code's transcription equals it, and Levenshtein gives minus the edit distance. Recorded real calls with zero gap-open (seeded, all six shipped matrices, Levenshtein) must score exactly Opt/LocalOpt computed by the spec; swapped arguments on symmetric matrices give equal scores; all 6x576 shipped entries and all 65 536 Levenshtein entries are read from the package variables and checked by CompleteOver/Symmetric/ZeroOpen/IsLevenshtein; protein pairs never panic.",
+    "ref": "DESIGN.md section 6 C09",
+    "note": "The alphabet of the shipped matrices is taken as the 23 letters ARNDCQEGHILKMFPSTWYVBZX plus Gap. Optimality beyond the model's scope rests on the spec's Gotoh.",
+    "technique": T,
+}
+CLAIMS["C10"] = {
+    "text": "AffineOptimal is refuted by TLC on the model: the set Bad of (a, b, matrix) on which the single-table recurrence is below the optimum (332 quick / 8 496 thorough cases) is enumerated from the state dump and every element, plus a complement sample, is executed on the real aligners. Recorded real calls with open != 0 are judged against the spec's optimum. The genuine defect D7 is a known finding: a sub-optimal result is reported as KNOWN-FINDING only when the trace specification's predicate KF_SingleStateAffine holds (score = the spec's transcription of the current single-table algorithm, below the optimum, all C08 predicates hold); any other sub-optimal or super-optimal score is a VIOLATION.",
+    "ref": "DESIGN.md section 6 C10, section 7 D7",
+    "note": "Known finding D7 (KNOWN_FINDINGS.txt); tie-breaking changes of decideOnStep move the failing inputs and are therefore reported under C10.",
+    "technique": T,
+}
+CLAIMS["C17"] = {
+    "text": "TLC explores every push order of every multiset (<= 5 of 6 values, n <= 3; thorough <= 7 of 7, n <= 4) of the bounded min-hash (OrderFree, Incremental, TailLaw), every pair of value sets for the transcribed merge walk of minhash.intersect against |Bottom_n(A u B) n A n B| / n on full sketches plus the fixed-point distance laws, and every short sequence pair for the CanonicalSubsequences index arithmetic; seeded sessions on the real mash.Sequences/Add/Distance/FromJaccard (strand, case, order, regrouping, Add-vs-batch, smaller-n variants; distances; Jaccard grids) are validated event by event by Trace_Mash, with murmur3 applied by the harness to both strands and rank-projected.",
+    "ref": "DESIGN.md section 6 C17",
+    "note": "Trusted: murmur3 (uninterpreted, injective), the rank projection and round(x*10^8). ln is checked against generated tables (fractions with denominator <= 32 and 2^-p, p <= 14; tolerance 1e-8); elsewhere range, symmetry, identity, monotonicity and table brackets. Distance is judged only for two full sketches of equal size; sequences over ACGT/acgt.",
+    "technique": T,
+}
+CLAIMS["C20"] = {
+    "text": "TLC checks the transcription of ReadNCBI against the property-level reading on every text <= 6 (thorough 8) bytes over 7 byte classes and on all tables <= 2x2 (thorough 3x3) over {A, C, *} x layouts x single-token corruptions (LayoutFree, StarIsGap, CorruptRejected), and Symmetrical's loop in every map iteration order plus the GoString order on all partial matrices over 2 (thorough 3) letters; seeded tables, layouts and corruptions, Symmetrical on partial matrices with and without conflicts (receiver observed before and after), and GoString re-evaluated with go/parser and go/constant (including the genncbi flow and shipped matrices) are validated by Trace_Smtext and Trace_Matrix.",
+    "ref": "DESIGN.md section 6 C20",
+    "note": "Trusted: strconv.ParseFloat per written token, go/parser and go/constant as the compiler's constant evaluation. Domain: '#' only in column 0 of comment lines, no blanks-only lines, printable ASCII labels distinct per side, finite scores, lines under 64 KiB.",
+    "technique": T,
+}
 PENDING = {}
